@@ -506,6 +506,13 @@ def _stack(
     if is_tc:
         list_of_tensordicts = [tc._tensordict for tc in list_of_tensordicts]
         clz = type(list_of_tensordicts[0])
+
+        def _rewrap(result):
+            # same class, non-tensor values of the first operand (as torch.stack through __torch_function__)
+            return td_types[0]._from_tensordict(
+                result, dict(list_of_tensordicts_orig[0]._non_tensordict)
+            )
+
     elif issubclass(td_types[0], TensorDict):
         clz = td_types[0]
     else:
@@ -595,7 +602,7 @@ def _stack(
                             stack_dim=lazy_stack_dim,
                         )
                         if is_tc:
-                            return clz._from_tensordict(result)
+                            return _rewrap(result)
                         return result
 
                 lazy_stack_dim = list_of_tensordicts[0].stack_dim
@@ -613,7 +620,7 @@ def _stack(
                     stack_dim=lazy_stack_dim,
                 )
                 if is_tc:
-                    return clz._from_tensordict(result)
+                    return _rewrap(result)
                 return result
 
             out = {}
@@ -685,7 +692,7 @@ def _stack(
                 device=device,
             )
             if is_tc:
-                return td_types[0]._from_tensordict(result)
+                return _rewrap(result)
             return result
         else:
             out = LazyStackedTensorDict(
@@ -693,7 +700,7 @@ def _stack(
                 stack_dim=dim,
             )
             if is_tc:
-                return td_types[0]._from_tensordict(out)
+                return _rewrap(out)
             return out
     else:
         keys = _check_keys(list_of_tensordicts)
